@@ -388,6 +388,9 @@ def diff_check(modes, quick_n, thorough_n, rule):
                 for f in case["meta"]["files"]:
                     for c in f["classes"]:
                         rep.count(f"diff {mode}:class:{c['class']}")
+            with K.Lock():
+                K.build_repo_binary()
+            git_e2e(rep, rows, tier, seed, n_for(tier, 120, 1500))
     return run
 
 
@@ -918,6 +921,10 @@ def c17_run(rep, tier, seed, tr):
     for name, d in dumps.items():
         rep.evaluations += 1
         rep.nontrivial.add(name)
+        if d.get("load_vs_validate_diff"):
+            rep.violation({"property": rep.prop, "component": f"probe ({name})",
+                           "what": "the functions reachable while the script is loaded differ from those reachable inside validate()",
+                           "function_paths_only_in_one_phase": d["load_vs_validate_diff"]})
         rep.count(f"probe:{name}:nodes={d['n']}:functions={len(d['fns'])}")
     rep.samples.append({"mode": "unset", "globals": dumps["unset"]["globals"], "nodes": dumps["unset"]["n"], "edges": len(dumps["unset"]["edges"]),
                         "function_paths": [l for i, l in dumps["unset"]["labels"] if i in set(dumps["unset"]["fns"])][:40]})
@@ -944,14 +951,14 @@ def c17_escape(rep):
         if name in sandbox_like:
             # loading an in-memory binary chunk made by string.dump stays inside the base/string facilities the
             # property allows (recorded as informational finding F6 in DESIGN.md); it is reported in the histogram only
-            bad = {k: v for k, v in outcome.items() if v != "blocked" and k != "load-binary"}
+            bad = {k: v for k, v in outcome.items() if v != "blocked" and not k.endswith("load-binary")}
             if bad or written or not victim:
                 found = True
                 rep.violation({"property": rep.prop, "component": f"escape battery ({name})",
                                "what": "a default-mode script reached the file system, the OS, a loader or the host",
                                "script": "tools/lua/escape.lua", "mode": mode, "escaped": bad, "file_written": written, "victim_removed": not victim, "cli": res})
         elif name == "safe":
-            need = ["io.open", "os.getenv", "package.path", "dofile", "require"]
+            need = ["io.open", "os.getenv", "package.path", "dofile", "require", "load:io.open", "captured:io"]
             missing = [k for k in need if outcome.get(k) == "blocked" and k not in ("require",)]
             if missing or outcome.get("debug.getregistry") != "blocked" or outcome.get("_G.debug") != "blocked":
                 rep.violation({"property": rep.prop, "component": "escape battery (safe)", "what": "safe mode must add io, os, package and nothing else (no debug)", "outcome": outcome, "cli": res})
@@ -1193,6 +1200,169 @@ CHECKS["C19"] = {
     "trusted_base": TB_COMMON + ["tools/fake_openai.py (local endpoint, fault injection, request recording)", "async-openai / reqwest / hyper / tokio"],
     "run": c19_run,
 }
+
+
+def old_text_of(mf, new_text):
+    """reconstruct the old file from the generator's segments (keep / del / add) and the new text"""
+    new_lines = new_text.split("\n")
+    if new_text.endswith("\n"):
+        new_lines = new_lines[:-1]
+    out, ni, di = [], 0, 0
+    for c in mf["segs"]:
+        if c == "k":
+            out.append(new_lines[ni]); ni += 1
+        elif c == "a":
+            ni += 1
+        else:
+            out.append(mf["del_texts"][di]); di += 1
+    return "".join(l + "\n" for l in out)
+
+
+def segs_from_real_diff(diff, path, nlines):
+    """independent reading of git's own diff for one file: segments over the whole new file (k/d/a)"""
+    import re as _re
+    lines = diff.split("\n")
+    segs, new_no = [], 1
+    in_file, i = False, 0
+    while i < len(lines):
+        l = lines[i]
+        if l.startswith("diff --git "):
+            in_file = False
+        if l.startswith("+++ "):
+            in_file = l[4:].split("\t")[0] == "b/" + path
+        m = _re.match(r"@@ -(\d+)(?:,(\d+))? \+(\d+)(?:,(\d+))? @@", l) if in_file else None
+        if m:
+            ts, tl = int(m.group(3)), int(m.group(4) or 1)
+            sl = int(m.group(2) or 1)
+            start = ts if tl > 0 else ts + 1
+            while new_no < start:
+                segs.append("k"); new_no += 1
+            i += 1
+            rem, add = sl, tl
+            while i < len(lines) and (rem > 0 or add > 0):
+                b = lines[i]
+                if b.startswith("+"):
+                    segs.append("a"); new_no += 1; add -= 1
+                elif b.startswith("-"):
+                    segs.append("d"); rem -= 1
+                elif b.startswith("\\"):
+                    pass
+                else:
+                    segs.append("k"); new_no += 1; add -= 1; rem -= 1
+                i += 1
+            continue
+        i += 1
+    while new_no <= nlines:
+        segs.append("k"); new_no += 1
+    return "".join(segs)
+
+
+def git_e2e(rep, rows, tier, seed, limit):
+    """the same repositories through REAL git: old state committed, new state written, the diff asked for in several
+    ways (-U0..-U10, unstaged / staged / commit-to-commit, renames with -M); the binary, the in-process code and the model
+    all read git's own output; the ground truth is recomputed from that output by an independent reader"""
+    import cli as C, random, shutil as _sh, subprocess as _sp
+    rnd = random.Random(seed)
+    sel = [r for r in rows if r[0]["meta"].get("gen") == "diff" and not any(f.get("new_file") and False for f in r[0]["meta"]["files"])][:limit]
+    def git(root, *args):
+        return _sp.run(["git", "-c", "user.name=v", "-c", "user.email=v@v", "-c", "core.autocrlf=false", "-c", "core.quotepath=off"] + list(args),
+                       cwd=root, stdout=_sp.PIPE, stderr=_sp.PIPE, text=True)
+    raws, metas = [], []
+    for (case, impl, model) in sel:
+        root = C.tmp_root()
+        try:
+            git(root, "init", "-q", ".")
+            new_files = {f["path"]: f["text"] for f in case["files"]}
+            meta_by = {m["path"]: m for m in case["meta"]["files"]}
+            for p, t in new_files.items():
+                m = meta_by[p]
+                if m.get("new_file"):
+                    continue
+                old = old_text_of(m, t)
+                os.makedirs(os.path.dirname(os.path.join(root, p)) or root, exist_ok=True)
+                with open(os.path.join(root, p), "w", newline="") as f:
+                    f.write(old)
+            git(root, "add", "-A"); git(root, "commit", "-q", "-m", "old", "--allow-empty")
+            renamed = {}
+            mode = rnd.choice(["unstaged", "staged", "commits", "rename"])
+            if mode == "rename":
+                cands = [p for p in new_files if not meta_by[p].get("new_file")]
+                if cands:
+                    p = rnd.choice(cands)
+                    q = os.path.join(os.path.dirname(p), "renamed_" + os.path.basename(p))
+                    git(root, "mv", p, q)
+                    renamed[p] = q
+            for p, t in new_files.items():
+                q = renamed.get(p, p)
+                os.makedirs(os.path.dirname(os.path.join(root, q)) or root, exist_ok=True)
+                with open(os.path.join(root, q), "w", newline="") as f:
+                    f.write(t)
+            u = rnd.choice([0, 0, 1, 3, 10])
+            if mode == "unstaged":
+                git(root, "add", "-N", ".")
+                d = git(root, "diff", f"-U{u}").stdout
+            elif mode == "staged" or mode == "rename":
+                git(root, "add", "-A")
+                d = git(root, "diff", "--cached", "-M", f"-U{u}").stdout
+            else:
+                git(root, "add", "-A"); git(root, "commit", "-q", "-m", "new", "--allow-empty")
+                d = git(root, "diff", f"-U{u}", "HEAD~1", "HEAD").stdout
+            files = [{"path": renamed.get(p, p), "text": t} for p, t in new_files.items()]
+            mfiles = []
+            for p, t in new_files.items():
+                q = renamed.get(p, p)
+                nl = len(t.split("\n")) - (1 if t.endswith("\n") else 0)
+                segs = segs_from_real_diff(d, q, nl)
+                # ground truth from git's own output: added lines; a deletion gap only for a PURE deletion group
+                # (a group with removals and additions is a replacement: which removed line "was" which is ambiguous)
+                adds, gaps, n, i2 = [], [], 0, 0
+                while i2 < len(segs):
+                    if segs[i2] == "k":
+                        n += 1; i2 += 1
+                        continue
+                    j2 = i2
+                    while j2 < len(segs) and segs[j2] != "k":
+                        j2 += 1
+                    group = segs[i2:j2]
+                    if "a" not in group:
+                        gaps.append(n)
+                    for ch in group:
+                        if ch == "a":
+                            n += 1; adds.append(n)
+                    i2 = j2
+                mfiles.append({"path": q, "segs": segs, "adds": adds, "gaps": gaps, "classes": [], "blocks": meta_by[p]["blocks"]})
+            raw = {"files": files, "scan": False, "diff": d, "patterns": ["^[a-z0-9]+$"],
+                   "meta": {"gen": "diff", "globs": False, "files": mfiles, "git": {"mode": mode, "u": u, "renamed": renamed}}}
+            res_list = C.run_bw(root, ["list"], stdin=d)
+            res_val = C.run_bw(root, [], stdin=d)
+            raws.append(raw); metas.append((res_list, res_val))
+        finally:
+            _sh.rmtree(root, ignore_errors=True)
+    d = os.path.join(K.WORK, rep.prop, "git")
+    _sh.rmtree(d, ignore_errors=True); os.makedirs(d)
+    with open(os.path.join(d, "raw.jsonl"), "w") as f:
+        for r in raws:
+            f.write(json.dumps(r) + "\n")
+    K.sh([K.BWH, "replay", "--out", d, os.path.join(d, "raw.jsonl")])
+    K.run_model(os.path.join(d, "cases.jsonl"), os.path.join(d, "model.jsonl"))
+    grows = [(json.loads(a), json.loads(b), json.loads(c)) for a, b, c in zip(open(os.path.join(d, "cases.jsonl")), open(os.path.join(d, "impl.jsonl")), open(os.path.join(d, "model.jsonl")))]
+    def nontrivial(case, impl, model):
+        return bool(case.get("diff")) and has_blocks(case, impl, model)
+    K.correspondence(rep, grows, "real git diff", nontrivial, known=K.load_known(rep.prop), oracle=oracle_drift)
+    for k, v in drift_known_counts(grows).items():
+        rep.count(f"real git diff:ground-truth-failure-in-known-class:{k}", v)
+    for (case, impl, model), (res_list, res_val) in zip(grows, metas):
+        rep.count("real git diff:" + case["meta"]["git"]["mode"] + f":U{case['meta']['git']['u']}")
+        known = any(e.get("status") == "open" and K.known_matches(e, case, impl, model) for e in K.load_known(rep.prop))
+        for sub, res in (("list", res_list), ("validate", res_val)):
+            rep.evaluations += 1
+            rep.traces += 1
+            out = C.outcome_list(res) if sub == "list" else C.outcome_validate(res)
+            diffs = C.compare_cli_list(out, model) if sub == "list" else C.compare_cli_validate(out, model)
+            if diffs and not known:
+                rep.violation({"property": rep.prop, "component": f"real git diff (CLI {sub})", "what": "the binary reading git's own diff disagrees with the model",
+                               "case": case, "cli": res, "model": model, "differences": [{"field": f, "cli": a, "model_and_spec": b} for f, a, b in diffs]})
+                break
 
 
 def replay(prop, path):
